@@ -240,9 +240,11 @@ def oracle(c):
     if 'cls' in L and not any(u['kind'] != 'leaf' and off <= i < off + r for off, r, u in tg.units(T)):
       alt = base.copy()
       alt[i] = np.array(fl(lg.gen_flow(rng, L, 'interior')))
-      dt = float(d.cost(alt, 0)) - float(d.cost(base, 0))
+      t1, t0 = float(d.cost(alt, 0)), float(d.cost(base, 0))
+      dt = t1 - t0
       dl = float(obj.cost(alt[i], 0)) - float(obj.cost(base[i], 0))
-      if abs(dt - dl) > 1e-7 * (1 + abs(dl)):
+      # the tree costs are sums over all rows: their difference is only resolved to a few units in the last place of the totals
+      if abs(dt - dl) > 1e-7 * (1 + abs(dl)) + 64 * np.finfo(float).eps * (abs(t1) + abs(t0)) * max(1, R):
         return 'changing flow row %d changes the tree cost by %r but the cost of the device labelled %s by %r' % (i, dt, q, dl)
   if len(set(labs)) == len(labs):
     for name, got in o['gets']:
